@@ -39,11 +39,16 @@ pub struct QSpec {
     pub alpha: Vec<f64>,
     /// optional linear trend added to the letters: x_t = letter + trend·t (C05 thorough)
     pub trend: f64,
+    /// a power of two (C05 only): the real estimator is fed letter·scale, the reference the
+    /// letter itself, and the reference's answers are multiplied by scale.  Multiplying by a
+    /// power of two commutes exactly with every P² operation unless something overflows or
+    /// underflows, so this compares the implementation with P² evaluated without overflow.
+    pub scale: f64,
 }
 
 impl QSpec {
     pub fn new(mode: Mode, p: f64, alpha_name: &str) -> QSpec {
-        QSpec { mode, p, alpha_name: alpha_name.into(), alpha: alphabet(alpha_name), trend: 0.0 }
+        QSpec { mode, p, alpha_name: alpha_name.into(), alpha: alphabet(alpha_name), trend: 0.0, scale: 1.0 }
     }
     pub fn judge(&self, t: &QState) -> Vec<Violation> {
         let mut out = Vec::new();
@@ -65,9 +70,10 @@ impl QSpec {
                 if t.count >= 1 && t.count <= 4 {
                     let want = small_quantile(self.p, &t.first);
                     let ok = est.is_finite()
-                        && want.accept.iter().any(|w| {
-                            let tol = 2.0 * f64::EPSILON * w.abs();
-                            (est - w).abs() <= tol
+                        && want.accept.iter().zip(want.bracket.iter()).any(|(w, (lo, hi))| {
+                            // two roundings of the average, relative or (subnormal range) absolute
+                            let tol = 2.0 * f64::EPSILON * w.abs() + 1e-323;
+                            (est - w).abs() <= tol && *lo <= est && est <= *hi
                         });
                     if !ok {
                         let sorted = {
@@ -79,8 +85,8 @@ impl QSpec {
                         out.push(Violation {
                             sig: format!("Quantile.quantile:small-sample:{}", if arrival_sorted { "sorted-arrival" } else { "unsorted-arrival" }),
                             detail: format!(
-                                "p = {:?}, observations (arrival order) {:?}: quantile() = {:?}, exact sample quantile {:?} ({})",
-                                self.p, t.first, est, want.accept, want.note
+                                "p = {:?}, observations (arrival order) {:?}: quantile() = {:?}, exact sample quantile {:?} formed from the order statistics {:?} ({})",
+                                self.p, t.first, est, want.accept, want.bracket, want.note
                             ),
                         });
                     }
@@ -94,13 +100,21 @@ impl QSpec {
                 if let Some(r) = &t.reference {
                     let span = t.gmax - t.gmin;
                     let tol = span * (2.0f64).powi(-40);
-                    let want = r.estimate();
+                    let sc = self.scale;
+                    // input class of the scaled family: observations within a factor 8 of f64::MAX
+                    let class = if sc != 1.0 { ":heights-near-f64-max" } else { "" };
+                    let want = r.estimate() * sc;
                     if !((est - want).abs() <= tol) {
                         out.push(Violation {
-                            sig: "Quantile.quantile:differs-from-P2".into(),
+                            sig: format!("Quantile.quantile:differs-from-P2{class}"),
                             detail: format!(
-                                "p = {:?}, after {} observations quantile() = {:?} but the P² middle marker is {:?} (tolerance {:e})",
-                                self.p, t.count, est, want, tol
+                                "p = {:?}, after {} observations quantile() = {:?} but the P² middle marker is {:?} (tolerance {:e}){}",
+                                self.p,
+                                t.count,
+                                est,
+                                want,
+                                tol,
+                                if sc != 1.0 { format!("; the reference ran on the stream divided by {sc:e} (a power of two) and its answer was multiplied back") } else { String::new() }
                             ),
                         });
                     }
@@ -117,7 +131,7 @@ impl QSpec {
                                         _ => "interior-marker",
                                     };
                                     out.push(Violation {
-                                        sig: format!("Quantile.positions:{which}"),
+                                        sig: format!("Quantile.positions:{which}{class}"),
                                         detail: format!(
                                             "p = {:?}, after {} observations marker positions are {:?} but P² prescribes {:?}",
                                             self.p,
@@ -130,15 +144,16 @@ impl QSpec {
                                 }
                             }
                             for i in 0..5 {
-                                if !((mk.q[i] - r.q[i + 1]).abs() <= tol) {
+                                if !((mk.q[i] - r.q[i + 1] * sc).abs() <= tol) {
                                     out.push(Violation {
-                                        sig: "Quantile.heights:differ-from-P2".into(),
+                                        sig: format!("Quantile.heights:differ-from-P2{class}"),
                                         detail: format!(
-                                            "p = {:?}, after {} observations marker heights are {:?} but P² prescribes {:?}",
+                                            "p = {:?}, after {} observations marker heights are {:?} but P² prescribes {:?}{}",
                                             self.p,
                                             t.count,
                                             mk.q,
-                                            &r.q[1..]
+                                            &r.q[1..],
+                                            if sc != 1.0 { format!(" times {sc:e}") } else { String::new() }
                                         ),
                                     });
                                     break;
@@ -235,11 +250,12 @@ impl Spec for QSpec {
     type Op = f64;
     fn name(&self) -> String {
         format!(
-            "{:?}/quantile/p={:016x}/{}{}",
+            "{:?}/quantile/p={:016x}/{}{}{}",
             self.mode,
             self.p.to_bits(),
             self.alpha_name,
-            if self.trend != 0.0 { format!("/trend={:?}", self.trend) } else { String::new() }
+            if self.trend != 0.0 { format!("/trend={:?}", self.trend) } else { String::new() },
+            if self.scale != 1.0 { format!("/scale={:e}", self.scale) } else { String::new() }
         )
     }
     fn init(&self) -> Vec<QState> {
@@ -254,7 +270,7 @@ impl Spec for QSpec {
             return vec![];
         }
         let t = s.count as f64;
-        self.alpha.iter().map(|a| a + self.trend * t).collect()
+        self.alpha.iter().map(|a| (a + self.trend * t) * self.scale).collect()
     }
     fn step(&self, s: &QState, op: &f64) -> QState {
         let x = *op;
@@ -266,13 +282,15 @@ impl Spec for QSpec {
         let mut first = s.first.clone();
         let mut reference = s.reference.clone();
         let count = s.count + 1;
+        // what the reference sees (x itself unless this is the scaled C05 family)
+        let letter = x / self.scale;
         if count <= 5 {
-            first.push(x);
+            first.push(letter);
             if count == 5 {
                 reference = Some(P2::init(self.p, &first));
             }
         } else if let Some(r) = reference.as_mut() {
-            r.observe(x);
+            r.observe(letter);
         }
         QState { q, reference, first, count, gmin: s.gmin.min(x), gmax: s.gmax.max(x) }
     }
@@ -325,8 +343,12 @@ pub fn pgrid() -> Vec<f64> {
 }
 
 pub fn qcheck(mode: Mode, p: f64, alpha: &str, depth: usize, trend: f64) -> Box<dyn Check> {
+    qcheck_scaled(mode, p, alpha, depth, trend, 1.0)
+}
+pub fn qcheck_scaled(mode: Mode, p: f64, alpha: &str, depth: usize, trend: f64, scale: f64) -> Box<dyn Check> {
     let mut spec = QSpec::new(mode, p, alpha);
     spec.trend = trend;
+    spec.scale = scale;
     let mut b = Bfs::new(spec, depth);
     b.extra = Box::new(|| json!({"marker_state_unreadable_so_marker_clauses_skipped": UNREADABLE.load(std::sync::atomic::Ordering::Relaxed)}));
     Box::new(b)
